@@ -39,10 +39,13 @@ protocol and evidence are as designed in section 2. Deviations, all in the direc
 
 ADDITIONS = """### 10.5 What the seeded rounds changed in the checks
 
-Eighty changes from four independent rounds (fresh sub-agents, property text only; each later round was told which *kinds* of change the earlier rounds had produced
+One hundred changes from five independent rounds (fresh sub-agents, property text only; each later round was told which *kinds* of change the earlier rounds had produced
 and asked for different ones) were confirmed and run. Rounds 1-3 (60 changes): 45 were detected by the quick tier as it stood, two more only by the thorough tier, 13 not
 at all. Round 4 (20 changes; column "before" in `seeded/*-agent4/meta.json: detected_before_strengthening`, measured by running the previous commit of `/verif` against each
 changed tree): 11 detected by the quick tier as it stood, one more only by the thorough tier (C02), 8 not at all (C01, C03, C04, C06, C07, C09, C10, C18).
+Round 5 (20 changes, run against the harness as committed when the round was launched): 13 detected by the quick tier as it stood, 7 by neither tier - the thorough tier
+by then included the coverage-guided stage, which did not help with any of the seven (C06, C07, C09, C10, C11, C12, C13): each needed an input *shape* the strategy could not
+express at all, which no amount of mutation of its choice sequence reaches.
 Every miss pointed at a *class* of input the generator did not produce, and the checks were extended for the class, not for the patch:
 
 * **State carried between calls.** C01, C02 (`pre`: the same / other expressions evaluated first by fresh engines - module-level caches), C06 (`hist`: the final
@@ -71,9 +74,20 @@ Every miss pointed at a *class* of input the generator did not produce, and the 
   ballot (confidence "high" / None) are failed voters. C07: unknown verdict *words* (empty, fragments and extensions of PERMIT / EXECUTE), not just the literal "UNKNOWN".
   C09: clock gaps from 0.25 s to 40 days and limits from 30 s to 25 h (a timedelta has days). C10: signature pools contain *case twins* (two patterns equal up to letter
   case with different levels, learnt / forgotten separately). C18: the provider's text replies are generated (blank, whitespace-only, error-looking).
+* **Round 5 (optimisations, compatibility shims, observability with side effects, re-entrancy, identifier collisions, partial resets).**
+  C03: one provider turn of the LLM tool loop now requests the tool under test twice plus every other registered tool, with call ids that are distinct, all equal, empty
+  or equal in reverse order. C06: **mirror-image relation S10** - under a more-than-half criterion a ballot and its mirror (every permit and block exchanged) cannot both be
+  PERMIT (BAYESIAN had been held to S2/S4/S6/S7 only; the seeded early exit was monotone and never permitted without a permit vote). C07: the prompt pool contains
+  near-duplicates that differ only in characters an encoder or normaliser might drop or fold (NFC/NFD, zero-width, NUL, NBSP, full-width, lone surrogates - a surrogate prompt
+  may be refused, it may not be confused with another request). C09: phase-change / senescence handlers call back into the lifecycle (heartbeat, status). C10: *overlap
+  scenarios* - a stronger literal rule whose only occurrence overlaps the match of another rule - generated and enumerated over every multi-word built-in instance.
+  C11, C07, C08, C10, C13: *bookkeeping calls* (statistics getters, reset_statistics, clear_cache, clear_audit_log, clear_recycling_bin, export) are part of the histories.
+  C12: templates enter the registry through every documented path and the main template is passed as named / unnamed / same-named object or by key. C13: *equal-valued items*
+  (Waste compares by value) with multiset attribution in the accounting model. C19: amplification factors 0.01..200 and a complete table of passing 2-3 stage pipelines
+  (the two accepted readings of "clamped product" had hidden a pinned-at-ceiling result).
 * **One oracle bug found on the way** (no registered run was affected): C02 compared complex NaN results with `==`; now component-wise with NaN == NaN.
 
-After these changes all eighty seeded changes are detected by the quick tier (table above; `python3 tools/run_mutants.py --seeded` re-runs them).
+After these changes all one hundred seeded changes are detected by the quick tier (table above; `python3 tools/run_mutants.py --seeded` re-runs them).
 """
 
 
